@@ -13,73 +13,92 @@ LEVEL_NOTE = ("Trusted base: rustc's MIR / Kani's translation of the crate, the 
 # id -> dict(text, technique, note, thorough)
 CLAIMED = {
     "C01": dict(
-        text="Bounded model checking of panic-freedom: Kani decides totality of the key table over the published key set; "
-             "(being extended) the MIR executor explores every path of the fixed/phonetic method entry points from symbolic "
-             "pre-states and asks z3 for a panic path. Counterexamples are replayed against the native build before they are reported.",
-        technique="Kani/CBMC SAT over the compiled crate + symbolic execution of rustc MIR with z3",
-        ref="DESIGN.md section 5 C01"),
+        text="Union of panic-freedom obligations, each a bounded model check: Kani decides totality of the key table over all 2^16 codes; the MIR "
+             "executor runs every Method entry point of the fixed and the phonetic method (key, backspace, commit, finish), the splitter, the "
+             "user-file loading/saving code under a failing environment, the candidate assembly with data oracles (incl. empty stored strings) and "
+             "the regex construction from symbolic pre-states satisfying stated invariants, and z3 is asked for a panic path on every path.",
+        technique="Kani/CBMC SAT + symbolic execution of rustc MIR with z3 (one inductive step per event)"),
+    "C02": dict(
+        text="Phonetic method entry points executed from MIR with the candidate assembly replaced by its contract (non-empty list, preselection "
+             "inside it): z3 decides list non-empty, preselection < length for a caller byte valid for the previous list, auxiliary text = typed "
+             "text; the assembly obligations decide the contract itself; Kani decides the accessor/read-out laws.",
+        technique="symbolic execution of rustc MIR with z3 + Kani/CBMC kernels"),
     "C03": dict(
-        text="Kani decides that the key->character table equals the table transcribed from the key names for every published key "
-             "(all 2^16 codes symbolic, restricted to the published set).",
-        technique="Kani/CBMC SAT over the compiled crate",
-        ref="DESIGN.md section 5 C03"),
+        text="Kani: key->character table equals the key-name table. MIR executor: splitter equals the punctuation/word/punctuation reference for "
+             "all strings over letters, digits and the 27 punctuation characters within the bound; suggestions-off result is conv(P1)++conv(W)++conv(P2) "
+             "with okkhor an uninterpreted function; with suggestions on the transliteration is a candidate on every path of the assembly.",
+        technique="Kani/CBMC SAT + symbolic execution of rustc MIR with z3 (okkhor as uninterpreted function)"),
     "C04": dict(
-        text="Symbolic execution of the fixed method's key entry point from rustc MIR with key code (2^16), modifier byte (2^8) and "
-             "the number-pad option symbolic and the layout file an oracle (consulted entry absent / empty / any 1-2 code points): z3 "
-             "decides on every path that exactly the entry named by the key-name table is consulted and exactly its text is composed; "
-             "Kani cross-checks the modifier decoding. Every path witness is replayed natively.",
-        technique="symbolic execution of rustc MIR with z3 (bounded model checking) + Kani/CBMC kernel",
-        ref="DESIGN.md section 5 C04"),
+        text="Fixed method key entry point from MIR with key code (2^16), modifier byte (2^8) and number-pad option symbolic and the layout file an "
+             "oracle: z3 decides on every path that exactly the entry named by the key-name table is consulted and exactly its text composed; "
+             "Kani cross-checks modifier decoding. Every path witness is replayed natively.",
+        technique="symbolic execution of rustc MIR with z3 over the full key space + Kani/CBMC kernel"),
+    "C05": dict(
+        text="Memo transparency step: suggest() executed twice from MIR on the same object with shared data oracles (first with the memo holding the "
+             "proper prefixes only and arbitrary scratch buffers, then warm): z3 decides equal lists and preselection.",
+        technique="symbolic execution of rustc MIR with z3 (paired runs, data oracles)"),
     "C06": dict(
-        text="One inductive step per event (key, key without value, backspace with symbolic ctrl, commit, finish) of the fixed method from "
-             "an arbitrary pre-state satisfying a stated reachable-state invariant, executed symbolically from MIR; z3 decides that "
-             "terminating events leave the freshly-constructed composition state, the flag equals the state, backspace makes progress, "
-             "stale scratch candidates are unobservable, and the invariant is preserved. Counterexamples are re-found on API-reachable states.",
-        technique="symbolic execution of rustc MIR with z3, inductive invariant step",
-        ref="DESIGN.md section 5 C06"),
-    "C12": dict(
-        text="One key from any composed text (all Unicode scalar values symbolic) with any key value under all 16 helper settings, executed "
-             "symbolically from MIR; z3 decides equality with an ordered rule list written from the property text (numeric Unicode classes).",
-        technique="symbolic execution of rustc MIR with z3 against a reference rule table",
-        ref="DESIGN.md section 5 C12"),
-    "C13": dict(
-        text="Reph key from any composed text (all scalar values symbolic): z3 decides conservation for every text within the length bound and "
-             "placement for every text matching the syllable grammar; option off appends.",
-        technique="symbolic execution of rustc MIR with z3 against a syllable-grammar reference",
-        ref="DESIGN.md section 5 C13"),
-    "C14": dict(
-        text="Paired key histories from idle (typewriter order with the option on vs Unicode order with it off) over complete syllable "
-             "templates with class-constrained symbolic letters and all 16 settings of the other helpers; z3 decides equality of the final texts "
-             "and the pending-sign clauses.",
-        technique="symbolic execution of rustc MIR with z3 (paired histories)",
-        ref="DESIGN.md section 5 C14"),
+        text="One inductive step per event of the fixed method (and of the phonetic method under the assembly contract) from an arbitrary pre-state "
+             "satisfying a stated reachable-state invariant: z3 decides that terminating events leave the freshly-constructed composition state, the "
+             "flag equals the state, backspace makes progress, stale scratch candidates are unobservable, and the invariant is preserved.",
+        technique="symbolic execution of rustc MIR with z3, inductive invariant step"),
     "C07": dict(
-        text="Kani runs the real slice::sort over symbolic Rank values from the producible domain and decides the ordering clauses "
-             "(First first, dictionary distances non-decreasing, transliteration/English last, no emoji before a distance-0 word, stability).",
-        technique="Kani/CBMC SAT over the compiled crate (real std sort, symbolic ranks)",
-        ref="DESIGN.md section 5 C07"),
+        text="Kani runs the real slice::sort over symbolic Rank values of the producible domain and decides the ordering clauses and stability; the MIR "
+             "executor runs the whole phonetic assembly with auto-correct, dictionary, emoji and selection oracles and symbolic distances and z3 decides "
+             "the ranking clauses, English-last and no-duplicates on every path; executor and native build agree on concrete typed texts.",
+        technique="Kani/CBMC SAT (real std sort) + symbolic execution of rustc MIR with z3 (data oracles)"),
+    "C08": dict(
+        text="Suffix half: add_suffix_to_suggestions/suggest from MIR for a symbolic word with every split point, suffix and memo oracles: z3 decides that "
+             "every base candidate of every known base|suffix split appears joined by the reference rules (completeness) on every path.",
+        technique="symbolic execution of rustc MIR with z3 against reference joining rules"),
+    "C09": dict(
+        text="Learn round trip from MIR: suggest -> candidate_committed(any index other than the preselected one) -> suggest again, with data oracles and "
+             "concrete punctuation wrappers converted by the real okkhor: z3 decides that the committed text is preselected.",
+        technique="symbolic execution of rustc MIR with z3 (multi-step, data oracles)"),
+    "C10": dict(
+        text="PhoneticMethod::new, update_engine and candidate_committed from MIR with every file-system and serde_json call a nondeterministic oracle "
+             "that may fail: z3/path enumeration decides no panic path and the state clauses (unreadable = absent, failed save loses one choice).",
+        technique="symbolic execution of rustc MIR with fault oracles (bounded model checking of all environment behaviours)"),
+    "C11": dict(
+        text="Reload step from MIR: type a word, update_engine under a later modification time with a different user auto-correct list (entry present/"
+             "absent before and after), type again, and compare with a context created after the edit: z3 decides equal candidate lists.",
+        technique="symbolic execution of rustc MIR with z3 (paired runs)"),
+    "C12": dict(
+        text="One key from any composed text (all Unicode scalar values symbolic) with any key value under all 16 helper settings: z3 decides equality "
+             "with an ordered rule list written from the property text; where the text is silent the outcome must still be a rule outcome.",
+        technique="symbolic execution of rustc MIR with z3 against a reference rule table"),
+    "C13": dict(
+        text="Reph key from any composed text (all scalar values symbolic): z3 decides conservation for every text within the length bound and placement "
+             "for every text matching the syllable grammar; option off appends.",
+        technique="symbolic execution of rustc MIR with z3 against a syllable-grammar reference"),
+    "C14": dict(
+        text="Paired key histories from idle (typewriter order with the option on vs Unicode order with it off) over complete syllable templates with "
+             "class-constrained symbolic letters and all 16 settings of the other helpers: z3 decides equal final texts and the pending-sign clauses.",
+        technique="symbolic execution of rustc MIR with z3 (paired histories)"),
+    "C15": dict(
+        text="Fixed candidate assembly from MIR with the regex search, emoji tables as oracles: z3 decides first candidate = composed text (curled), cap of "
+             "nine, English slot, distance order, no duplicates, dictionary candidates are wrapped search answers; the regex pattern built from any word "
+             "is anchored with a meta-free literal; Kani runs the real sort_unstable; the dictionary order contract is validated on the data.",
+        technique="symbolic execution of rustc MIR with z3 (data oracles) + Kani/CBMC (real sort_unstable)"),
     "C16": dict(
-        text="Kani decides the English-masked-by-ANSI switch for all flag values and the read-out law pre-edit = encode(candidate) "
-             "iff ANSI for list and single suggestions (encoder replaced by a tagging stub).",
-        technique="Kani/CBMC SAT over the compiled crate",
-        ref="DESIGN.md section 5 C16"),
+        text="Kani decides the English-masked-by-ANSI switch and the read-out law pre-edit = encode(candidate) iff ANSI (encoder = tagging stub); the MIR "
+             "executor decides for both assemblies that with ANSI on no emoji, emoticon text or raw English reaches the list for any English setting.",
+        technique="Kani/CBMC SAT + symbolic execution of rustc MIR with z3"),
+    "C17": dict(
+        text="Quoter kernel for all strings within the bound, and paired assembly runs (smart quotes on vs off, same oracles) for both methods: z3 decides "
+             "same length, order, preselection and candidate-wise equality after un-curling (raw typed text identical).",
+        technique="symbolic execution of rustc MIR with z3 (paired runs)"),
+    "C18": dict(
+        text="Assembly from MIR with emoticon / emoji-name oracles: z3 decides that the emoji of an emoticon is offered and the literal text kept once, "
+             "all emoji of a name are offered wrapped and in table order, in both methods; ANSI excludes them.",
+        technique="symbolic execution of rustc MIR with z3 (data oracles)"),
     "C19": dict(
-        text="Kani with CBMC pointer checks decides the ownership protocol of the config object through the exported functions.",
-        technique="Kani/CBMC SAT with pointer checks over the compiled crate",
-        ref="DESIGN.md section 5 C19"),
+        text="Kani with CBMC pointer checks decides the ownership protocol of suggestion, string and config objects through the exported functions "
+             "(strings stay valid after the suggestion is freed, bytes + NUL equal the Rust value, null frees are no-ops).",
+        technique="Kani/CBMC SAT with pointer checks over the compiled crate"),
 }
 
-NOT_YET = {
-    "C02": "check under construction (MIR executor obligations phonetic_key_consistent / fixed_list_consistent); not claimed until it runs",
-    "C05": "check under construction (memo transparency step on the MIR executor); not claimed until it runs",
-    "C08": "check under construction (suffix join completeness on the MIR executor); not claimed until it runs",
-    "C09": "check under construction (learned-choice round trip on the MIR executor); not claimed until it runs",
-    "C10": "check under construction (fault oracles for user files on the MIR executor); not claimed until it runs",
-    "C11": "check under construction (reload equivalence on the MIR executor); not claimed until it runs",
-    "C15": "check under construction (fixed suggestion assembly on the MIR executor); not claimed until it runs",
-    "C17": "check under construction (smart-quote kernel and pairing on the MIR executor); not claimed until it runs",
-    "C18": "check under construction (emoji assembly on the MIR executor); not claimed until it runs",
-}
+NOT_YET = {}
 
 
 def main():
@@ -93,7 +112,7 @@ def main():
             evidence_file="evidence/%s.json" % pid,
             replay_cmd_template="./check %s --replay {path}" % pid,
             engine="riti-solver-checks",
-            level_claimed=dict(category="model_checking", text=c["text"], design_ref=c["ref"]),
+            level_claimed=dict(category="model_checking", text=c["text"], design_ref="DESIGN.md section 5 " + pid),
             level_note=c.get("note", LEVEL_NOTE),
             technique=c["technique"],
         ))
@@ -104,7 +123,7 @@ def main():
             guard="cfg(kani) for the Kani harness include; cfg(riti_verif) for the state dump/plant methods used by the native replay driver",
             enable="cargo kani sets cfg(kani), RITI_VERIF_KANI=<staging dir> names the directory of the included harness file; the replay driver is built with RUSTFLAGS=--cfg riti_verif",
             baseline_off_cmd="cd /repo && cargo test --workspace --no-fail-fast --offline",
-            source_commits=["8aaf6ef", "b3ec2e9"],
+            source_commits=["8aaf6ef", "b3ec2e9", "2e53133"],
             add_only=True,
         ),
         engines=[
